@@ -175,6 +175,12 @@ def value_attr(I, v, name):
             if v.columns is None:
                 raise Undecided("frame columns")
             return v.columns
+    if v.__class__.__name__ == "STable":
+        if (k, name) in METHODS:
+            return LibMethod(v, name)
+        if name == "shape":
+            return SList([v.nrows, Opaque("ncols")], "tuple")
+        raise Undecided(f"attribute .{name} of result table")
     if isinstance(v, ExcVal):
         if name == "args":
             return SList(list(v.args), "tuple")
@@ -763,6 +769,24 @@ def _sorted(I, args, kwargs):
     raise Undecided("sorted of symbolic items")
 
 
+@lib("builtins.filter")
+def _filter(I, args, kwargs):
+    f, it = args
+    out = []
+    for x in I.iter_concrete(it):
+        keep = I.truth(x if f is None else I.call(f, [x], {}), "filter")
+        if keep:
+            out.append(x)
+    return SList(out, "list")
+
+
+@lib("builtins.map")
+def _map(I, args, kwargs):
+    f = args[0]
+    lists = [I.iter_concrete(a) for a in args[1:]]
+    return SList([I.call(f, list(t), {}) for t in zip(*lists)], "list")
+
+
 @lib("builtins.hasattr")
 def _hasattr(I, args, kwargs):
     return I.hasattr(args[0], args[1])
@@ -1202,9 +1226,6 @@ def run_ctxmgr(I, fv, genv, body, wnode, env):
     I.exec_block(rest, genv)
 
 
-from . import libnp  # noqa: E402,F401  (registers numpy / pandas models)
-from .libnp import getitem, setitem  # noqa: E402,F401
-from .libpd import series_binop  # noqa: E402,F401
 
 
 # =========================================================================== abstract estimators / ghost trace
@@ -1282,3 +1303,14 @@ def sk_clone(I, args, kwargs):
     if isinstance(o, SList):
         return SList([sk_clone(I, [x], {}) for x in o.items], o.kind)
     raise Undecided(f"clone({o!r})")
+
+
+@lib("time.time", "time.perf_counter")
+def _time(I, args, kwargs):
+    I.ctx.note("time.time() values are opaque")
+    return I.ctx.fresh_real("time")
+
+
+from . import libnp  # noqa: E402,F401  (registers numpy / pandas models)
+from .libnp import getitem, setitem  # noqa: E402,F401
+from .libpd import series_binop  # noqa: E402,F401
